@@ -18,6 +18,17 @@ def Tab.get {α : Type} [Inhabited α] (t : Tab α) (i j : Nat) : α := t.a[i * 
 
 instance : Inhabited (Cx Float) := ⟨⟨0, 0⟩⟩
 
+/-- memoised `dft2At` / `idft2ReAt` on the whole cell: the roots of unity are tabulated once -/
+def fwdTab (M N : Nat) (im : Nat → Nat → Float) : Tab (Cx Float) :=
+  let wM := Tab.make 1 M (fun _ a => (root M (-1) (a : Int) : Cx Float))
+  let wN := Tab.make 1 N (fun _ a => (root N (-1) (a : Int) : Cx Float))
+  Tab.make M N (dft2AtW M N (wM.get 0) (wN.get 0) im)
+
+def invReTab (M N : Nat) (G : Nat → Nat → Cx Float) : Tab Float :=
+  let wM := Tab.make 1 M (fun _ a => (root M 1 (a : Int) : Cx Float))
+  let wN := Tab.make 1 N (fun _ a => (root N 1 (a : Int) : Cx Float))
+  Tab.make M N (idft2ReAtW M N (wM.get 0) (wN.get 0) G)
+
 def ratToJson (q : Rat) : Json := Json.str s!"{q.num}/{q.den}"
 
 def ratOfJson (j : Json) : Except String Rat := do
@@ -81,17 +92,15 @@ def opSplat (j : Json) : Except String Json := do
   let pt : Nat → Rat × Rat := fun p => arr[p]!
   pure (Json.mkObj [("w", matToJson ratToJson rows cols (weightMapAt rows cols arr.size pt))])
 
-/-- C13's NumPy estimator as the registration routine of `align_translation` (Float) -/
-def regNp (M N up : Nat) (ms : Option Float) : Reg Float := fun ref im =>
-  let raw_t := Tab.make M N (fun s t => cc M N ref im (s : Int) (t : Int))
+/-- C13's NumPy estimator (`fft_input=True, fft_output=True`) as the registration routine of
+`align_translation` (Float) -/
+def regNp (M N up : Nat) (ms : Option Float) : Reg Float := fun Fr Fi =>
+  let F_t := Tab.make M N (ccF Fr Fi)
+  let F := F_t.get
+  let raw_t := invReTab M N F      -- cc_real = real(ifft2(F_ref * conj(F_im)))
   let raw := raw_t.get
   let cs_t := Tab.make M N (masked M N ms raw)
   let cs := cs_t.get
-  let Fr_t := Tab.make M N (dft2At M N ref)
-  let Fi_t := Tab.make M N (dft2At M N im)
-  let Fi := Fi_t.get
-  let F_t := Tab.make M N (ccF Fr_t.get Fi)
-  let F := F_t.get
   let shift : Float × Float :=
     if up ≤ 1 then shiftNp1 M N cs raw
     else
@@ -104,8 +113,7 @@ def regNp (M N up : Nat) (ms : Option Float) : Reg Float := fun ref im =>
       let s := upsampledNpOf up k.x k.y p_t.get
       (centre s.1 M, centre s.2 N)
   let G_t := Tab.make M N (rampAt M N Fi shift.1 shift.2)
-  let al_t := Tab.make M N (idft2ReAt M N G_t.get)
-  (shift, al_t.get)
+  (shift, G_t.get)
 
 /-- `align_translation`: measured shifts before and after mean removal -/
 def opAlign (j : Json) : Except String Json := do
@@ -119,7 +127,9 @@ def opAlign (j : Json) : Except String Json := do
   match imgs with
   | [] => throw "no images"
   | (M, N, _) :: _ =>
-    let fs := imgs.map fun (_, _, f) => f
+    -- tables first (data, evaluated once), then read back as functions
+    let tabs : List (Tab (Cx Float)) := imgs.map fun (_, _, f) => fwdTab M N f
+    let fs : List (FImg Float) := tabs.map fun t => t.get
     let raw := alignShifts (regNp M N up ms) fs
     let d := removeMean raw
     let enc (l : List (Float × Float)) := Json.arr (l.map fun v => Json.arr #[fl v.1, fl v.2]).toArray
